@@ -512,7 +512,7 @@ func init() {
 		},
 		Explore: []string{"explore"},
 		Sweeps: []core.Sweep{{Name: "single-network-fault-placement", Entry: "sweep", Enumerate: c01Enumerate,
-			Space: "tile heights 1..4 (quick 1..2) x log sizes 1..20 (quick 1..10) x looked-up record (quick: first/last) x {cold cache, cache warmed by another record (thorough only), cache warmed by the same record} x {honest, each of the first 8 (quick 5) network responses x each of 23 network fault kinds (19 hostile, 3 benign, 1 assisted by the disk)}"}},
+			Space: "tile heights 1..4 (quick 1..2) x log sizes 1..20 (quick 1..10) x looked-up record (quick: first/last) x {cold cache, cache warmed by another record (thorough only), cache warmed by the same record} x {honest, each of the first 8 (quick 5) network responses x each of 24 network fault kinds (20 hostile, 3 benign, 1 assisted by the disk)}"}},
 		Rule: "explore: seeded (tile height 1-8, log 1-70 records (thorough up to 1100), log growing during the run, 1-3 clients sharing one machine's cache and config with 1-3 goroutines each, 0-3 faults over network/cache/config classes, 0-2 crash-restarts at arbitrary scheduler steps) followed by a heal phase; sweep: one placed network fault. " +
 			"Distinct = digest of the complete seam event log and schedule; non-trivial = at least one lookup completed.",
 		Real:        []string{"sumdb.Client incl. parCache and tileReader", "tlog (tiles, hashes, records, tree heads)", "note.Open/NewVerifier", "module.Escape*", "sumdb.Server.ServeHTTP over harness ServerOps"},
